@@ -452,7 +452,25 @@ def main():
     seed = int(os.environ.get("VERIF_SEED", "1") or "1")
     P = importlib.import_module("props." + a.pid)
     tier = a.tier if a.tier in ("quick", "thorough") else "quick"
-    sys.exit(run_check(P, tier, seed, a.replay))
+    try:
+        rc = run_check(P, tier, seed, a.replay)
+    except SystemExit:
+        raise
+    except Exception as ex:  # noqa
+        # the machinery itself failed (on the unchanged tree this is a broken check; on a changed tree the property
+        # is no longer shown to hold): keep to the interface — a VIOLATION line with a replay file naming what broke
+        import traceback
+        tb = traceback.format_exc()
+        rdir = os.path.join(vlib.ROOT, "replays" if vlib.REPO == "/repo" else os.path.join("build", "replays_alt"), a.pid)
+        os.makedirs(rdir, exist_ok=True)
+        rp = os.path.join(rdir, "V2_check_crashed.json")
+        with open(rp, "w") as fh:
+            json.dump({"property": a.pid, "kind": "V2", "what": "the check machinery crashed: %r" % ex,
+                       "correspondence": "corr:%s/runner" % a.pid, "traceback": tb[-4000:]}, fh, indent=1)
+        print(tb, file=sys.stderr)
+        print("VIOLATION property=%s replay=%s no-failing-input-found" % (a.pid, rp))
+        rc = 1
+    sys.exit(rc)
 
 
 if __name__ == "__main__":
